@@ -1,17 +1,47 @@
 # property table: which driver(s), configurations and evidence level decide each property
+import os
 import glmxpy as G
 
 def run_simple(prop, spec, tier, known_ids, t0, args):
     cfgs = spec.get('configs', ['default'])
-    bins = G.build_many([(spec['src'], c, tuple(spec.get('flags', [])), None, (), tuple(spec.get('libs', []))) for c in cfgs])
+    parts = spec.get('parts')
+    if parts:
+        plist = list(range(parts)) if tier == 'thorough' else spec.get('quick_parts', list(range(parts)))
+    else:
+        plist = [None]
+    jobs, meta = [], []
+    for c in cfgs:
+        for k in plist:
+            fl = tuple(spec.get('flags', [])) + ((f'-DGLMX_PART={k}',) if k is not None else ())
+            tag = os.path.splitext(os.path.basename(spec['src']))[0] + (f'p{k}' if k is not None else '')
+            jobs.append((spec['src'], c, fl, tag, (), tuple(spec.get('libs', []))))
+            meta.append(c)
+    bins = G.build_many(jobs)
     results = []
     extra = ['--only', args.only] if getattr(args, 'only', '') else []
-    for b, c in zip(bins, cfgs):
-        results.append(G.run_driver(b, prop, c, tier, known_ids, extra_args=extra))
+    nthreads = max(2, 16 // max(1, len(bins))) if len(bins) > 1 and spec.get('parallel_run', True) else None
+    def one(bc):
+        b, c = bc
+        return G.run_driver(b, prop, c, tier, known_ids, extra_args=extra, threads=nthreads)
+    if len(bins) > 1 and spec.get('parallel_run', True):
+        from concurrent.futures import ThreadPoolExecutor
+        with ThreadPoolExecutor(max_workers=len(bins)) as ex:
+            results = list(ex.map(one, zip(bins, meta)))
+    else:
+        results = [one(x) for x in zip(bins, meta)]
     mc = None
     if spec['level'] == 'model_checking':
         mc = spec['mc'](results)
     return G.report(prop, tier, spec['level'], results, spec['rule'], t0, src=spec['src'], model_checking=mc)
+
+def mc_c02(results):
+    st = tr = 0
+    for r in results:
+        for op in r['ops']:
+            if op['name'].startswith('sequences'):
+                st += op.get('states', 0); tr += op['nontrivial']
+    return {'states': st, 'transitions': tr, 'traces_validated_against_impl': tr,
+            'state_graph_note': 'states = distinct matrix values reached by operation sequences (hash of the value vector, no abstraction), summed over shapes/types; transitions = edges of the history tree (every sequence is replayed from its start matrix on a fresh real object and on the array reference model and compared element by element after every step)'}
 
 def mc_c14(results):
     st = tr = 0
@@ -26,6 +56,10 @@ def mc_c14(results):
             'state_graph_note': 'states = finite float/double bit patterns visited; transitions = nextFloat/prevFloat (and n-step chains) executed on the implementation; every transition is compared with the reference model, so validated == transitions'}
 
 PROPS = {
+ 'C02': dict(src='drivers/c02.cpp', level='model_checking', mc=mc_c02, parts=7, quick_parts=[0, 1, 2], flags=['-O1'],
+   technique='exhaustive enumeration of operand lattices that are complete for bilinear index errors (TAG, DEV_2 over base 0, DEV_1 over TAG) for all 27 products / 9 shapes / 81 conversions, plus breadth-first exploration of all operation sequences up to a depth over a 12-operation alphabet, each replayed on the real matrix objects and on a plain-array reference model',
+   text='Stateless part: every shape x compatible operand shape x element type is evaluated on all operand tuples differing from zero in at most two entries (five non-zero values each), on distinct-prime tagged operands and their single-entry deviations; by bilinearity this exposes every wrong, missing, duplicated or mis-signed product term. Explicit-state part: all sequences (depth 2 quick, 3-4 thorough) of compound assignments, ++/--, negation, self-multiplication (aliasing) and transpose from three start matrices per shape, states = value vectors, every transition validated against the array model.',
+   rule='per op: TAG + DEV_2(0,{-2,-1,1,2,3}) + DEV_1(TAG,{0,-p}) over the combined entry list of the operands (thorough adds a DEV_3 sub-lattice for <=18 entries and element types uint, i8, i16, i64); sequences: all words over the 12-op alphabet up to the depth from 3 start matrices; a sequence whose exact result leaves the exactly-representable range is cut (counted trivial).'),
  'C06': dict(src='drivers/c06.cpp', level='exploration',
    technique='exhaustive enumeration of every code of every field of every pack format (all 2^2..2^16 codes per field, three companion patterns) and of structured float lattices (all 2^32 floats for the scalar pack functions, thorough) through pack/unpack, against a per-format reference decoder',
    text='37 formats described once (field offset/width/kind) and explored generically. Code sweep: every code of every <=16-bit field (complete) - decode value and component order, re-pack of canonical codes, unpack.pack.unpack idempotence, Inf/NaN codes, monotone decoding. Real sweep: every float of F32_EDGE + a grid around every quantisation step (quick) / all 2^32 floats for single-field formats (thorough) in every field: half-step (normalised) or one-mantissa-step (small float, shared exponent) accuracy, clamping at both range ends, monotonicity, no cross-talk between fields. F3x9_E1x5: all 2^32 words in the thorough tier.',
